@@ -376,21 +376,25 @@ func runC08(c *Ctx) {
 		}
 		R.Floor("C08.R5", "DecodeValue calls in Parameter.Scan", n, 1)
 	}
-	if wpd := c.mustMethod("C08.R5", "wire", "Session", "writeParameterDescription"); wpd != nil {
-		R.Analysed(fname(wpd))
-		list := ssa.Value(wpd.Params[2])
+	{
+		sites := c.paramDescriptionSites()
+		if len(sites) == 0 {
+			R.Fail("C08.R5", "ParameterDescription:anchor", "-", "the ParameterDescription frame ('t') is written somewhere in package wire", "no Start('t') frame with a count found: the rule cannot be decided")
+		}
 		n := 0
-		for _, ci := range core.Calls(wpd) {
-			if isWriterMethod(ci, "AddInt16") {
-				n++
-				x, ok := core.IsLenOf(core.StripConv(ci.Common().Args[1]))
-				R.Check(ok && x == list, "C08.R5", "writeParameterDescription:count-of-declared-list", c.at(ci), "ParameterDescription announces as many types as the statement declares", "count is len() of the parameter list handed in, unmodified", "the announced count is not len() of the declared parameter list itself (truncated / re-sliced list)")
+		for _, s := range sites {
+			R.Analysed(fname(s.fn))
+			n++
+			ok := s.countIsLen && len(s.countPath) > 0
+			for _, p := range s.countPath {
+				if !strings.HasSuffix(p, ".parameters") {
+					ok = false
+				}
 			}
-			if isWriterMethod(ci, "AddInt32") {
+			R.Check(ok, "C08.R5", "writeParameterDescription:count-of-declared-list", c.at(s.count), "ParameterDescription announces as many types as the statement declares", "count is len() of the statement's parameter list itself, unmodified", "the announced count is not len() of the declared parameter list itself (truncated / re-sliced list)")
+			for i, e := range s.elems {
 				n++
-				arg := core.StripConv(ci.Common().Args[1])
-				root, p := pathOf(arg)
-				R.Check(root == list && p == "[]", "C08.R5", "writeParameterDescription:types-of-declared-list", c.at(ci), "each announced OID is an element of the statement's declared list", "operand is an element of the parameter list", "an announced OID is not an element of the declared parameter list")
+				R.Check(s.elemOK[i], "C08.R5", "writeParameterDescription:types-of-declared-list", c.at(e), "each announced OID is an element of the statement's declared list", "operand is an element of the parameter list", "an announced OID is not an element of the declared parameter list")
 			}
 		}
 		R.Floor("C08.R5", "count / OID operands in writeParameterDescription", n, 2)
@@ -528,6 +532,8 @@ func (c *Ctx) classifyFormat(fn *ssa.Function, v ssa.Value, kinds map[string]boo
 				kinds["positional"] = true
 			} else if k0, isK := core.ConstInt(indexOrNil(ia)); ok && isK && k0 == 0 && c.isFormatSlice(fn, ia.X) && anyDominates(lenEqEdges(fn, ia.X, 1), x.Block()) {
 				kinds["single-code"] = true // codes[0] under len(codes) == 1
+			} else if k0, isK := core.ConstInt(indexOrNil(ia)); ok && isK && k0 == 0 && c.isFormatSlice(fn, ia.X) && c.helperSizeArg(ia.X) != nil && anyDominates(constEqEdges(core.StripConv(c.helperSizeArg(ia.X)), 1, true), x.Block()) {
+				kinds["single-code"] = true // codes[0] under count == 1, the helper made the slice with that count
 			} else {
 				kinds["unguarded-index"] = true
 			}
@@ -637,12 +643,7 @@ func (c *Ctx) c08ReadParameters(rp, np *ssa.Function) {
 		if fc.formats == nil {
 			continue
 		}
-		okCnt := false
-		if ex, ok := fc.count.(*ssa.Extract); ok {
-			if call, ok := ex.Tuple.(*ssa.Call); ok && isReaderMethod(call, "GetUint16") {
-				okCnt = true
-			}
-		}
+		okCnt := fc.count != nil && c.isMessageCount(fc.count, 2)
 		R.Check(okCnt, "C08.R3", "readParameters:formats-slice", c.at(fc.formats), "the parameter format codes are read into a slice of the declared length", "make([]FormatCode, code count read from the message)", "the format slice is not sized by the message's code count")
 		for _, r := range core.Referrers(fc.formats) {
 			ia, ok := r.(*ssa.IndexAddr)
@@ -829,8 +830,12 @@ func (c *Ctx) c08ResultFormats() {
 		var ms *ssa.MakeSlice
 		for _, b := range rc.Blocks {
 			for _, in := range b.Instrs {
-				if m, ok := in.(*ssa.MakeSlice); ok && count != nil && core.StripConv(m.Len) == count {
-					ms = m
+				if m, ok := in.(*ssa.MakeSlice); ok {
+					if count != nil && core.StripConv(m.Len) == count {
+						ms = m
+					} else if count == nil && c.isMessageCount(m.Len, 2) {
+						ms = m // sized by a count that every caller decodes from the message
+					}
 				}
 			}
 		}
@@ -1077,4 +1082,62 @@ func (c *Ctx) callerArg(p *ssa.Parameter) (ssa.Value, *ssa.Function) {
 		}
 	}
 	return nil, nil
+}
+
+// isMessageCount: v is a count decoded from the message by GetUint16, directly or handed down as a parameter by
+// every caller.
+func (c *Ctx) isMessageCount(v ssa.Value, depth int) bool {
+	v = core.StripConv(v)
+	if ex, ok := v.(*ssa.Extract); ok && ex.Index == 0 {
+		if call, ok := ex.Tuple.(*ssa.Call); ok && isReaderMethod(call, "GetUint16") {
+			return true
+		}
+	}
+	if p, ok := v.(*ssa.Parameter); ok && depth > 0 {
+		fn := p.Parent()
+		sites := c.P.CallSitesOf(fn)
+		if len(sites) == 0 {
+			return false
+		}
+		idx := -1
+		for i, q := range fn.Params {
+			if q == p {
+				idx = i
+			}
+		}
+		for _, s := range sites {
+			if idx < 0 || idx >= len(s.Common().Args) || !c.isMessageCount(s.Common().Args[idx], depth-1) {
+				return false
+			}
+		}
+		return true
+	}
+	return false
+}
+
+// helperSizeArg: for a format slice that is result #0 of a helper call, the argument that sizes the slice the helper
+// makes and returns (its make([]FormatCode, param)).
+func (c *Ctx) helperSizeArg(v ssa.Value) ssa.Value {
+	ex, ok := v.(*ssa.Extract)
+	if !ok {
+		return nil
+	}
+	call, ok := ex.Tuple.(*ssa.Call)
+	if !ok {
+		return nil
+	}
+	h := core.StaticCallee(call)
+	if h == nil || !c.P.InPkg(h, "wire") {
+		return nil
+	}
+	hc := c.fmtCtxOf(h)
+	if hc.formats == nil {
+		return nil
+	}
+	for i, p := range h.Params {
+		if core.StripConv(hc.formats.Len) == ssa.Value(p) && i < len(call.Call.Args) {
+			return call.Call.Args[i]
+		}
+	}
+	return nil
 }
